@@ -316,6 +316,16 @@ impl Interner {
         COMMON_STRINGS_UTF8.len() + self.utf16_interner.len()
     }
 
+    /// Verification hook (only with `--cfg boa_verif`): the strings interned at run time (not the
+    /// static common strings), in interning order, as UTF-16 code units.
+    #[cfg(boa_verif)]
+    #[must_use]
+    pub fn verif_dynamic_strings(&self) -> Vec<Vec<u16>> {
+        (0..self.utf16_interner.len())
+            .filter_map(|i| self.utf16_interner.index(i).map(<[u16]>::to_vec))
+            .collect()
+    }
+
     /// Returns `true` if the [`Interner`] contains no interned strings.
     ///
     /// # Examples
